@@ -245,6 +245,20 @@ CHECKS = {
              'inlined feedback); noise processes identical; structural demands per rewrite; reversed flows re-checked on the Choi state.',
         note=TB + ' The rewriting code other than the decomposition tables is tied by the oracle only; detector coordinates are not compared.',
         design='§4 C13'),
+    'C10': dict(
+        technique='oracle over the real analyzer output with theorems on reading decomposed models (Decomp.v: XOR of components, permutation '
+                  'and merge invariance of the mechanism distribution)',
+        text='Proof: a decomposition whose components XOR to the undecomposed symptoms defines, read without separators, the same '
+             'distribution (any number of errors/components); the distribution of independent mechanisms is invariant under permutation, '
+             'merging of equal symptom sets with p(1-q)+q(1-p), dropping of zero/empty mechanisms (so comparing canonical forms is sound); '
+             'a mis-decomposed error is distinguishable (non-vacuity). Tie O: for stabilizer-round circuits with random 1-4 qubit channels, '
+             'stim gen codes and random annotated noisy circuits, with every combination of fold_loops / ignore_decomposition_failures / '
+             'block_decomposition_from_introducing_remnant_edges, the decomposed model is read back: component XORs merged must equal '
+             'the model produced without decomposition (1e-9 relative), every component has at most two detectors unless failures are '
+             'ignored (and then the error is left whole), with blocking every component of a split error occurs elsewhere in the model; '
+             'a raise must be the documented decomposition failure and never occurs when failures are ignored.',
+        note=TB + ' The decomposition heuristics are not modelled in Coq; the undecomposed model is tied to the specification by C03.',
+        design='§4 C10'),
 }
 
 PENDING = 'check not yet built in this round (see DESIGN.md §7 phasing); the Coq model for it is planned, not claimed'
